@@ -24,7 +24,7 @@ from ..fl import dec, enc
 # (roots, children per root or 0 for a one-level tree)
 SHAPES_QUICK = [(2, 0), (2, 2), (1, 3), (2, 1)]
 SHAPES_THOROUGH = [(2, 0), (2, 2), (1, 3), (3, 2), (2, 1), (3, 0)]
-STARTS = ["rest", "leaf", "object", "shared"]
+STARTS = ["rest", "leaf", "object", "shared", "debug"]
 MUTS = ["pos_inplace", "pos_rebind", "vel_set", "vel_none", "ts"]
 
 
@@ -63,7 +63,26 @@ class World:
                 n.add_child(Node(Particle(list(p), {"q": float(c)})))
                 model[(r, c)] = [list(p), None, None]
             roots.append(n)
-        self.sh = TreeStateHandler(TreePhysicalState(), TreeLiftingState())
+        if start == "debug":
+            # the state handler as `run.py -vv` builds it (it caches "debug logging is on" and takes its debug branches,
+            # which must only log); otherwise the start "leaf"
+            import logging
+            lg = logging.getLogger("jellyfysh")
+            old_level, old_prop = lg.level, lg.propagate
+            if not any(isinstance(h, logging.NullHandler) for h in lg.handlers):
+                lg.addHandler(logging.NullHandler())
+            logging.disable(logging.NOTSET)
+            lg.setLevel(logging.DEBUG)
+            lg.propagate = False
+            try:
+                self.sh = TreeStateHandler(TreePhysicalState(), TreeLiftingState())
+            finally:
+                lg.setLevel(old_level)
+                lg.propagate = old_prop
+                logging.disable(logging.WARNING)
+            start = "leaf"
+        else:
+            self.sh = TreeStateHandler(TreePhysicalState(), TreeLiftingState())
         self.sh.initialize(roots)
         self.model = model
         self.branches = []  # [cnode, ident, snapshot dict or None once inserted]
